@@ -172,8 +172,31 @@ func c12ResumePatch(old []byte, ctrls []c12Ctrl, k int, geom [2]int) (cls, msg s
 
 // ---------- Coq printers ----------
 
+// Case terms are written for an open Z_scope without scope delimiters, pairs or other
+// polymorphic notations (elaborating those dominates the cost of a case file): every number is
+// a Z literal, byte strings are lists of Z, records are applications of monomorphic constructors.
+func c12Z(n int64) string {
+	if n < 0 {
+		return fmt.Sprintf("(%d)", n)
+	}
+	return fmt.Sprintf("%d", n)
+}
+
+func c12B(b []byte) string {
+	var sb strings.Builder
+	sb.WriteByte('[')
+	for i, x := range b {
+		if i > 0 {
+			sb.WriteByte(';')
+		}
+		fmt.Fprintf(&sb, "%d", x)
+	}
+	sb.WriteByte(']')
+	return sb.String()
+}
+
 func c12CtrlCoq(c c12Ctrl) string {
-	return fmt.Sprintf("(%s, %s, %s, %s)", lib.CoqBytes(c.Add), lib.CoqBytes(c.Copy), lib.CoqZ(c.Seek), lib.CoqBool(c.Eof))
+	return fmt.Sprintf("mkc %s %s %s %s", c12B(c.Add), c12B(c.Copy), c12Z(c.Seek), lib.CoqBool(c.Eof))
 }
 
 func c12CtrlsCoq(cs []c12Ctrl) string {
@@ -481,7 +504,7 @@ func c12RunDiffCase(c *Ctx, run *c12Runner, cs *c12Case) error {
 	}
 	switch cs.group {
 	case "bsd":
-		out.Coq = fmt.Sprintf("($ID%%N, %s, %s, %s, (%d%%N, %s))", lib.CoqZ(int64(cs.partitions)), lib.CoqBytes(cs.old), lib.CoqBytes(cs.nw), code, ctr)
+		out.Coq = fmt.Sprintf("Bsd $ID%%N %d %s %s %d %s", cs.partitions, c12B(cs.old), c12B(cs.nw), code, ctr)
 	case "bsdt":
 		if resp.Class == "ok" {
 			table := c12SearchTable(cs.old, cs.nw, cs.partitions)
@@ -489,11 +512,11 @@ func c12RunDiffCase(c *Ctx, run *c12Runner, cs *c12Case) error {
 			for i, row := range table {
 				es := make([]string, len(row))
 				for j, e := range row {
-					es[j] = fmt.Sprintf("(%d,%d)", e[0], e[1])
+					es[j] = fmt.Sprintf("%d;%d", e[0], e[1])
 				}
-				rows[i] = "([" + strings.Join(es, ";") + "]%Z)"
+				rows[i] = "[" + strings.Join(es, ";") + "]"
 			}
-			out.Coq = fmt.Sprintf("($ID%%N, %s, %s, %s, %s, (%d%%N, %s))", lib.CoqZ(int64(cs.partitions)), lib.CoqBytes(cs.old), lib.CoqBytes(cs.nw), lib.CoqList(rows), code, ctr)
+			out.Coq = fmt.Sprintf("Bsdt $ID%%N %d %s %s %s %d %s", cs.partitions, c12B(cs.old), c12B(cs.nw), lib.CoqList(rows), code, ctr)
 		} else {
 			out.Group = ""
 		}
@@ -744,20 +767,20 @@ func c12PatchCases(c *Ctx, run *c12Runner) error {
 				oracle = "a series that is not applicable (" + why + fmt.Sprintf(", announced size %d, defined output %d bytes) was applied without error", newSize, len(ref))
 			}
 		}
-		outCoq := "[]%N"
+		outCoq := "[]"
 		if pcls == "ok" {
-			outCoq = lib.CoqBytes(out)
+			outCoq = c12B(out)
 		}
-		r2 := "[]%N"
+		r2 := "[]"
 		if rcls == "ok" {
-			r2 = lib.CoqBytes(o2)
+			r2 = c12B(o2)
 		}
 		c.Out.Emit(&lib.Case{Group: "pat", Class: "pat/" + class + fmt.Sprintf("/cache%v", geom[0] > 0), Nontrivial: len(ctrls) >= 3 && pcls == "ok",
 			Input:  map[string]interface{}{"old": c12BytesJ(old), "ctrls": c12CtrlsJ(ctrls, 12), "newSize": newSize, "cache": geom, "resumeAfter": k},
 			Obs:    map[string]interface{}{"patch": pcls, "resume": rcls, "out": c12BytesJ(out), "savedOffset": saved},
 			Oracle: oracle,
-			Coq: fmt.Sprintf("($ID%%N, %s, %s, %s, %d%%nat, (%d%%N, %s), (%d%%N, %s, %s))", lib.CoqBytes(old), c12CtrlsCoq(ctrls), lib.CoqZ(newSize), k,
-				c12ClassCode[pcls], outCoq, c12ClassCode[rcls], lib.CoqZ(saved), r2)})
+			Coq: fmt.Sprintf("Pat $ID%%N %s %s %s %d %d %s %d %s %s", c12B(old), c12CtrlsCoq(ctrls), c12Z(newSize), k,
+				c12ClassCode[pcls], outCoq, c12ClassCode[rcls], c12Z(saved), r2)})
 	}
 	return nil
 }
